@@ -727,7 +727,45 @@ def c11_17(ctx):
     return shared_obligations(ctx, ["psbt", "psbt_helper", "hd", "script"], "the result would depend on something other than the arguments and the object's current state")
 
 
+def c11_18(ctx):
+    """Only `m <keys> n OP_CHECKMULTISIG` is taken for the wallet's multisig: the two recognisers (`is_p2wsh_multisig`, `is_p2sh_multisig`) are
+    evaluated on `OP_2 <k1> <k2> <k3> OP_3 <last>` for *every* value 0..255 of the last opcode (the complete domain of that byte) and for a
+    data element in its place; they may answer yes only for 174."""
+    from sa.cells import Evaluator, Obj, Raised, Undecided
+    out = []
+    for spec, cls in (("script:WitnessScript.is_p2wsh_multisig", "WitnessScript"), ("script:RedeemScript.is_p2sh_multisig", "RedeemScript")):
+        mod, fn = rl.get(ctx, spec)
+        bad = None
+        for last in list(range(256)) + [b"\xae", b"\x02" * 33]:
+            ctx.count("cells")
+            me = Obj("script", cls, {"commands": [0x52, b"\x02" * 33, b"\x03" * 33, b"\x02" + b"\x11" * 32, 0x53, last]})
+            try:
+                r = Evaluator(ctx.repo).call(spec, [], self_obj=me)
+            except Raised:
+                r = False
+            except Undecided as u:
+                out.append(ctx.err(spec, "recogniser not evaluable for last element %r: %s" % (last, u), fn, mod))
+                bad = "undecided"
+                break
+            if bool(r) != (last == 174):
+                bad = last
+                break
+        if bad == "undecided":
+            continue
+        if bad is None:
+            out.append(ctx.ok(spec, "answers yes only for a script ending in OP_CHECKMULTISIG (all 256 values of the last opcode evaluated)", fn, mod, key="multisig-shape:" + cls))
+        elif bad == 174:
+            out.append(ctx.bad(spec, "`OP_2 <k1> <k2> <k3> OP_3 OP_CHECKMULTISIG` is not recognised as multisig", fn, mod, key="multisig-shape:" + cls))
+        else:
+            shown = ("opcode %d (0x%02x)" % (bad, bad)) if isinstance(bad, int) else "a data element"
+            out.append(ctx.bad(spec, "`OP_2 <k1> <k2> <k3> OP_3 <last>` with last = %s is taken for the wallet's multisig: an output committing to that script is labelled "
+                                     "change although it is not the m-of-n CHECKMULTISIG policy%s" % (shown, " (OP_CHECKMULTISIGVERIFY leaves nothing on the stack: unspendable)" if bad == 175 else ""),
+                               fn, mod, key="multisig-shape:" + cls))
+    return out
+
+
 OBLIGATIONS = [
+    ("C11.18", "CELLS opcode", c11_18),
     ("C11.17", "SHARED", c11_17),
     ("C11.16", "SET-ORDER", c11_16),
     ("C11.10", "MEMO", c11_10),
